@@ -55,6 +55,8 @@ func Load(dir string, overlay map[string][]byte) (*Eng, error) {
 		return nil, fmt.Errorf("no Go >= 1.25 toolchain found")
 	}
 	e.GoVer = gover
+	os.Setenv("PATH", gobin+string(os.PathListSeparator)+os.Getenv("PATH"))
+	os.Unsetenv("GOSUMDB")
 	var env []string
 	for _, kv := range os.Environ() {
 		if strings.HasPrefix(kv, "PATH=") || strings.HasPrefix(kv, "GOSUMDB=") || strings.HasPrefix(kv, "GOFLAGS=") ||
